@@ -114,7 +114,7 @@ func vLayout(r *rand.Rand, words []string, fancy bool) (string, []int) {
 // vSynthCorpus builds a synthetic corpus: nd documents of 4..maxLen words over
 // a vocabulary of nv words, with near-duplicates, containment and exact
 // duplicates under two names.
-func vSynthCorpus(r *rand.Rand, nv, nd, maxLen int) []vSynthDoc {
+func vSynthCorpus(r *rand.Rand, nv, nd, maxLen int, forced ...int) []vSynthDoc {
 	vocab := vSynthVocab(r, nv)
 	var docs []vSynthDoc
 	mk := func(n int) []string {
@@ -127,7 +127,12 @@ func vSynthCorpus(r *rand.Rand, nv, nd, maxLen int) []vSynthDoc {
 	for i := 0; i < nd; i++ {
 		var words []string
 		kind := r.Intn(10)
+		if i < len(forced) {
+			kind = 100 // a document of exactly the forced length (boundary lengths around q)
+		}
 		switch {
+		case kind == 100:
+			words = mk(forced[i])
 		case kind == 0 && len(docs) > 0: // near-duplicate of an earlier document
 			src := docs[r.Intn(len(docs))].words
 			words = append([]string{}, src...)
@@ -308,7 +313,8 @@ func TestVerifC01(t *testing.T) {
 				if cd.gen == "mixed" {
 					maxLen = []int{60, 300}[r.Intn(2)]
 				}
-				sd := vSynthCorpus(r, nv, cd.extra, maxLen)
+				// documents of exactly q, q+1 and 2q words: the shortest the statement covers
+				sd := vSynthCorpus(r, nv, cd.extra, maxLen, q, q+1, 2*q, q)
 				var c *Classifier
 				if cd.gen == "mixed" {
 					c = vBuild(thr, docs)
